@@ -10,6 +10,51 @@ import GlotaranProofs.Lemmas.C17Path
 import GlotaranProofs.Lemmas.C17Tree
 namespace Glotaran.C17
 
+/-! ## the text constants: generated from the source, run by the regex machine
+
+`tupleWordMatch`, `wordFindall`, `sciRest`, `renderKey` — the definitions every theorem below and the protocol
+driver use — run the patterns of glotaran/utils/regex.py, applied the way glotaran/utils/sanitize.py applies
+them, and the f-string of `save_model`, all regenerated from the working tree on every run
+(`GlotaranModel/Generated/C17.lean`).  The four theorems of this section pin what these constants compute; an edit
+of a pattern (a repeat `+` → `*`, a widened or narrowed class, greedy ↔ lazy, an anchor, `match` ↔ `fullmatch`),
+of the template, or anything the translator cannot express (`untranslatable`) breaks them. -/
+
+/-- **`rp.tuple_word.match(s)`** — the generated pattern run by the backtracking engine — holds exactly when `s`
+    starts with `(`, one character of `[.\s\w]`, any characters of `[,.\s\w]` and then `)` -/
+theorem generated_tuple_word_eq_model (s : Str) : tupleWordMatch s = tupleWordMatchDet s := tupleWordMatch_eq_det s
+
+example : tupleWordMatch "(s1, s2) trailing".toList = true ∧ tupleWordMatch "(s-1, s2)".toList = false ∧
+    tupleWordMatch "x(s1, s2)".toList = false ∧ tupleWordMatch "()".toList = false := by
+  simp only [generated_tuple_word_eq_model]; decide
+
+/-- **`rp.word.findall(s)`** — the generated pattern scanned over `s` with CPython's `findall` rules — is the list
+    of maximal runs of word characters -/
+theorem generated_word_eq_model (s : Str) : wordFindall s = wordRunsAux s [] := wordFindall_eq_det s
+
+example : wordFindall "(s1, s_2)x".toList = ["s1".toList, "s_2".toList, "x".toList] ∧ wordFindall "(, )".toList = [] := by
+  simp only [generated_word_eq_model]; decide
+
+/-- **`rp.number_scientific.match(s)`** — the generated pattern, all repeats greedy, with the engine's backtracking —
+    matches exactly sign? digits* (`.`? digits+) `[eE]` sign? digits+ at the front, and the first match it finds ends
+    where the closed form says -/
+theorem generated_number_scientific_eq_model (s : Str) : sciRest s = sciRestDet s := sciRest_eq_det s
+
+example : sciRest "1e3".toList = some [] ∧ sciRest "-.5E-3x".toList = some ['x'] ∧ sciRest "12.e5".toList = none ∧
+    sciRest "1.5".toList = none ∧ sciRest "e5".toList = none ∧ sciRest "12e+5.5".toList = some ".5".toList := by
+  simp only [generated_number_scientific_eq_model]; decide
+
+/-- **the f-string of `save_model`** renders a tuple key by its first two elements as `(a, b)`, a string key by its
+    first two characters, and raises (IndexError) on anything shorter -/
+theorem generated_render_eq_model (a b : Str) (r : List Str) (x y : Char) (k : Str) :
+    renderKey (.t (a :: b :: r)) = some (renderPair a b) ∧
+    renderKey (.s (x :: y :: k)) = some (renderPair [x] [y]) ∧
+    renderKey (.t [a]) = none ∧ renderKey (.t []) = none ∧ renderKey (.s [x]) = none ∧ renderKey (.s []) = none := by
+  refine ⟨renderKey_pair a b r, ?_, ?_, ?_, ?_, ?_⟩ <;>
+    simp [renderKey, keyElems, Generated.renderTemplate, Regex.renderWith, renderPair]
+
+example : renderKey (.t ["s1".toList, "s2".toList]) = some "(s1, s2)".toList := by
+  rw [(generated_render_eq_model _ _ [] 'x' 'y' []).1]; decide
+
 /-! ## tuple keys: `save_model` renders, `sanitize_dict_keys` parses -/
 
 /-- **A K-matrix key of two labels made of word characters survives `save_model` → `load_model`**:
@@ -18,7 +63,8 @@ theorem tuple_key_roundtrip (a b : Str) (ha : IsLabel a) (hb : IsLabel b) :
     (Key.s (renderPair a b)).tupleLike = true ∧ (Key.s (renderPair a b)).sanitized = Key.t [a, b] := by
   exact ⟨tupleWordMatch_render a b ha hb, by simp [Key.sanitized, wordFindall_render a b ha hb]⟩
 
-example : (Key.s (renderPair "s1".toList "species_2".toList)).sanitized = Key.t ["s1".toList, "species_2".toList] := by decide
+example : (Key.s (renderPair "s1".toList "species_2".toList)).sanitized = Key.t ["s1".toList, "species_2".toList] := by
+  simp only [Key.sanitized, generated_word_eq_model]; decide
 
 /-- **…and only such keys do**: the round trip gives the key back iff both labels are non-empty words.
     (Full statement "every pair of labels round-trips" is false: `tuple_key_roundtrip_counterexample`.) -/
@@ -41,7 +87,8 @@ example : IsLabel "s1".toList ∧ IsLabel "9".toList := by decide
 theorem tuple_key_roundtrip_counterexample :
     (Key.s (renderPair "s.2".toList "a".toList)).tupleLike = true ∧
     (Key.s (renderPair "s.2".toList "a".toList)).sanitized = Key.t ["s".toList, "2".toList, "a".toList] ∧
-    (Key.s (renderPair "s-1".toList "a".toList)).tupleLike = false := by decide
+    (Key.s (renderPair "s-1".toList "a".toList)).tupleLike = false := by
+  simp only [Key.sanitized, Key.tupleLike, generated_word_eq_model, generated_tuple_word_eq_model]; decide
 
 /-! ## the whole specification: `save_model` → yml file → `load_model` -/
 
@@ -88,7 +135,12 @@ theorem model_spec_roundtrip_excluded :
       = .map (.cons (.t ["s5".toList]) (.str "sh1".toList) .nil) ∧
     -- a K-matrix with one well-formed and one malformed key loses the malformed entry
     sanEntry (.map (.cons (.s "(s1, s2)".toList) (.str "k.1".toList) (.cons (.s "(s-1, s2)".toList) (.str "k.2".toList) .nil)))
-      = .map (.cons (.t ["s1".toList, "s2".toList]) (.str "k.1".toList) .nil) := ⟨by rfl, by rfl, by rfl, by rfl⟩
+      = .map (.cons (.t ["s1".toList, "s2".toList]) (.str "k.1".toList) .nil) := by
+  refine ⟨?_, ?_, ?_, ?_⟩
+  · simp only [sciConv, sciRest_eq_det]; rfl
+  · simp only [sciConv, sciRest_eq_det]; rfl
+  · simp only [sanEntry, sanKeysKV, newOfKV, newOfAcc, Key.tupleLike, Key.sanitized, tupleWordMatch_eq_det, wordFindall_eq_det]; rfl
+  · simp only [sanEntry, sanKeysKV, newOfKV, newOfAcc, Key.tupleLike, Key.sanitized, tupleWordMatch_eq_det, wordFindall_eq_det]; rfl
 
 /-! ## interval fields -/
 
@@ -305,6 +357,44 @@ example :
     ('/' ∉ "csv".toList) ∧ (∀ l ∈ s.data.map Prod.fst, PlainName (dataName "nc".toList l)) ∧
     (saveResult ["tmp".toList, "x".toList] "out/a/../run 1".toList true true "csv".toList "nc".toList s).resultRefs
       = canonResultRefs "csv".toList "nc".toList ["d1".toList, "ds 2".toList] := by decide
+
+/-! ## file names derived from dataset labels (`save_result`, folder plugin) -/
+
+/-- **Distinct dataset labels get distinct files, and the reference stored for a label leads to that label's own
+    file** — for every result whose dataset labels contain no path separator (with the netCDF format this is exactly
+    "the file name `<label>.nc` is a plain name": dots, leading dots, blanks, case are all fine), every target,
+    every prior `source_path` state: (1) the paths handed to the dataset writer are pairwise different for different
+    labels; (2) the reference `save_result` writes for a label, resolved against the result folder from any current
+    directory, is the resolved path of the file written for that label.
+    (Partial: for labels with `/` the statement is false — `dataset_filenames_counterexample`.) -/
+theorem dataset_filenames_injective_partial (cwd : List Str) (resultPath : Str) (report filtered : Bool) (pfmt : Str) (s : Srcs)
+    (hl : ∀ l ∈ s.data.map Prod.fst, '/' ∉ l) :
+    (∀ x ∈ (saveResult cwd resultPath report filtered pfmt (strOf "nc") s).srcs.data,
+      ∀ y ∈ (saveResult cwd resultPath report filtered pfmt (strOf "nc") s).srcs.data, x.2 = y.2 → x.1 = y.1) ∧
+    (∀ x ∈ (saveResult cwd resultPath report filtered pfmt (strOf "nc") s).srcs.data, ∀ cwd' : List Str,
+      refTarget cwd' (resultFolder resultPath).asPosix (dataName (strOf "nc") x.1) = resolveP cwd' (parsePath x.2)) := by
+  rw [saveResult_data]
+  constructor
+  · intro x hx y hy hxy
+    simp only [List.mem_map] at hx hy
+    obtain ⟨a, ha, rfl⟩ := hx
+    obtain ⟨b, hb, rfl⟩ := hy
+    exact dataFile_injective resultPath _ _ _
+      (plain_dataName_nc _ (hl _ (List.mem_map.mpr ⟨a, ha, rfl⟩)))
+      (plain_dataName_nc _ (hl _ (List.mem_map.mpr ⟨b, hb, rfl⟩))) hxy
+  · intro x hx cwd'
+    simp only [List.mem_map] at hx
+    obtain ⟨a, ha, rfl⟩ := hx
+    have hp := plain_dataName_nc _ (hl _ (List.mem_map.mpr ⟨a, ha, rfl⟩))
+    rw [refTarget_plain _ _ _ hp, resolve_dataFile _ _ _ _ hp]
+
+example : ∀ l ∈ ["sample.470nm".toList, "sample.530nm".toList, ".x".toList, "a b".toList], '/' ∉ l := by decide
+
+/-- the witness replayed on the real code on every run (corpus/C17/dataset-label-path-collision.json): the labels
+    `a/b` and `a//b` are written to the same file `out/a/b.nc` -/
+theorem dataset_filenames_counterexample :
+    dataFile "out".toList "nc".toList "a/b".toList = "out/a/b.nc".toList ∧
+    dataFile "out".toList "nc".toList "a//b".toList = "out/a/b.nc".toList := by decide
 
 /-! ## explicit ascii files -/
 
